@@ -142,7 +142,7 @@ zip_stride = {
     "name": "zip_buffer_with_stride", "file": QS,
     "match": r"void quantiles_sketch<T, C, A>::zip_buffer_with_stride\(FwdV&& buf_in, Level& buf_out, uint16_t stride\)",
     "sig": "void zip_buffer_with_stride(struct level* buf_in, struct level* buf_out, uint16_t stride)", "refs": ["buf_in", "buf_out"], "nloops": 1,
-    "pre_rules": [(r"std::uniform_int_distribution<uint16_t> dist\(0, stride - 1\);", "", 1),
+    "pre_rules": [(r"std::uniform_int_distribution<uint16_t> dist\(0, stride - 1\);", "", "any"),
                   (r"dist\(random_utils::rand\)", "verif_uniform_u16(0, stride - 1)", "any")],
     "post_rules": LEVEL,
     "contract": r'''
